@@ -52,6 +52,16 @@ def run_modes(chk, data, out, tag, nrun):
             nrun[0] += 1
             p = r[0] if pm == 'alloc' else (posout[:r[0]] if pm in ('supplied', 'strided') else None)
             v = r[1] if vm == 'alloc' else (velout[:r[1]] if vm in ('supplied', 'strided') else None)
+            shape_bad = False
+            for nm, a, md in (('pos', p, pm), ('vel', v, vm)):
+                if a is None:
+                    continue
+                if not isinstance(a, np.ndarray) or a.ndim != 2 or a.shape[1] != 3 or a.dtype != dt:
+                    chk.violation(f'{tag}-result-type', f'{len(data)} records with {n} particles: {nm} (mode {pm},{vm}) is {type(a).__name__} {getattr(a, "shape", a)!r} '
+                                  f'{getattr(a, "dtype", "")}; expected an (N, 3) {np.dtype(dt).name} array in every output-selection mode', dict(data=data.tolist()))
+                    shape_bad = True
+            if shape_bad:
+                return
             for nm, a in (('pos', p), ('vel', v)):
                 if a is None:
                     continue
